@@ -73,8 +73,12 @@ def random_deco(rnd):
     return ('plain',)
   if r < 0.5:
     return ('convert', rnd.random() < 0.7, rnd.random() < 0.7)
-  if r < 0.68:
+  if r < 0.6:
     return ('dnc',)
+  if r < 0.68:
+    # do_not_convert applied to something that is already an AutoGraph artifact (a convert(user_requested=False)
+    # wrapper): the region is DISABLED all the same
+    return ('dnc_conv', rnd.random() < 0.7)
   if r < 0.8:
     return ('unspec',)
   return ('to_graph', rnd.random() < 0.7)
@@ -168,6 +172,8 @@ def tree_source(root):
       out.append('n%d = malt.convert(recursive=%r, user_requested=%r)(n%d_impl)' % (i, d[1], d[2], i))
     elif d[0] == 'dnc':
       out.append('n%d = malt.experimental.do_not_convert(n%d_impl)' % (i, i))
+    elif d[0] == 'dnc_conv':
+      out.append('n%d = malt.experimental.do_not_convert(malt.convert(recursive=%r, user_requested=False)(n%d_impl))' % (i, d[1], i))
     elif d[0] == 'unspec':
       out.append('n%d = api.call_with_unspecified_conversion_status(n%d_impl)' % (i, i))
     elif d[0] == 'to_graph':
@@ -227,7 +233,7 @@ class Sim(object):
       return self.body(node, None)
     if d[0] == 'convert':                   # wrapper: with NullCtx: converted_call(impl, options=(R, U, True))
       return self.cc(node, False, (d[1], d[2], True))
-    if d[0] == 'dnc':
+    if d[0] in ('dnc', 'dnc_conv'):         # (the inner convert wrapper sees DISABLED and calls the function as it is)
       return self.within('DISABLED', lambda: self.body(node, None))
     if d[0] == 'unspec':
       return self.within('UNSPECIFIED', lambda: self.body(node, None))
@@ -339,7 +345,7 @@ class Env(object):
     converted = fr is not None and '__autograph_generated_file' in fr.f_code.co_filename
     self.events.append((i, status, converted))
     d = self.decos[i][0]
-    if d == 'dnc' and status != 'DISABLED':
+    if d in ('dnc', 'dnc_conv') and status != 'DISABLED':
       self.problems.append(dict(kind='status-inside-do-not-convert', sig='dnc:%s' % status,
                                 what='probe in the body of do_not_convert-wrapped n%d saw %s' % (i, status)))
     if d == 'unspec' and status != 'UNSPECIFIED':
